@@ -23,6 +23,24 @@ var plans = map[string]plan{
 		Stubs:    []string{"TCP/TLS (net.Pipe, no handshake)", "HTTP server loop (http.ReadRequest + recorder)", "block stores (in-memory)", "wall clock (testing/synctest)", "libp2p stream transport (absent)"},
 		Assume:   commonAssume,
 	},
+	"C02": {
+		Property: "C02", Level: "fault_enumeration",
+		Quick:    []phase{{Scen: "C02", Enum: true, Seeds: 4000, Batch: 250}},
+		Thorough: []phase{{Scen: "C02", Enum: true, Seeds: 300000, Batch: 1000}},
+		Rule: "enumerated: for 5 link prototypes (sha2-256, sha2-512, sha3-256, blake2b-256, sha2-256 truncated to 20 bytes) x segmented/unsegmented x each of the 3 block requests of a sync: a bit flip at 192 (quick) / 1024 (thorough) evenly spread byte positions, truncation at as many lengths, empty, oversized (+1 MiB), three kinds of appended bytes, substitution by every block of the same chain and by two foreign blocks, short Content-Length; seeded: 1..2 body or store faults (incl. lost and failing commits) at random positions of chains 3..10, explicit and announce-triggered, two publisher addresses. Oracles: store audit recomputed with go-multihash, altered block => sync error, altered block and its ancestors never reach the hook, then heal and converge. Non-trivial when a fault fired; distinct = distinct (fault set, canonical log hash)",
+		Real:   []string{"dagsync.Subscriber", "ipnisync.Sync/Syncer (fetchBlock digest check)", "ipnisync.Publisher", "go-ipld-prime traversal", "go-multihash (also used, independently, by the audit)", "net/http client transport"},
+		Stubs:  []string{"TCP/TLS (net.Pipe)", "HTTP server loop", "block stores (in-memory, fault points)", "wall clock (testing/synctest)"},
+		Assume: commonAssume,
+	},
+	"C03": {
+		Property: "C03", Level: "fault_enumeration",
+		Quick:    []phase{{Scen: "C03", Enum: true, Seeds: 3000, Batch: 250}},
+		Thorough: []phase{{Scen: "C03", Enum: true, Seeds: 200000, Batch: 1000}},
+		Rule: "enumerated: 4 libp2p key types (Ed25519, RSA-2048, ECDSA, secp256k1) x topic set/unset x libp2p-HTTP discovery/plain HTTP x direct Syncer.GetHead / Subscriber.SyncAdChain, the head response altered in transit by a bit flip at 150 evenly spread (quick) or every (thorough, bit rotating) byte position and by 18 field-level alterations (CID, topic, key, signature swapped with those of other valid heads; re-signed by another identity; stale but valid head; missing/empty fields; trailing bytes); seeded: random byte positions, other key type for the second identity. Expected verdict from an independent decode (ipld-prime generic dag-json, go-cid, libp2p crypto): accepted only if validly signed by the publisher being synced. Every run is non-trivial (one alteration fired); distinct = distinct (fault set, canonical log hash)",
+		Real:   []string{"ipnisync head.SignedHead decode/validate", "ipnisync.Syncer.GetHead", "dagsync.Subscriber.SyncAdChain", "ipnisync.Publisher (signs the head)", "libp2p crypto", "net/http client transport", "libp2p-HTTP discovery client"},
+		Stubs:  []string{"TCP/TLS (net.Pipe)", "HTTP server loop", "block stores", "wall clock (testing/synctest)"},
+		Assume: append([]string{"RSA/ECDSA/secp256k1 identities come from a committed key ring; the harness wraps ECDSA keys so that they sign deterministically (RFC 6979) instead of drawing nonces from crypto/rand - verification code is untouched"}, commonAssume...),
+	},
 	"C04": {
 		Property: "C04", Level: "fault_enumeration",
 		Quick:    []phase{{Scen: "C04", Enum: true, Seeds: 6000, Batch: 250}},
